@@ -150,12 +150,74 @@ def runner_trace(results):
     _expect("fresh output after a failed step", _tlc_verdicts("RunnerTrace", "RunnerTrace.cfg", bad), "NoFreshOutputAfterFault", results)
 
 
+def inject_trace(results):
+    print("InjectTrace")
+    blocks = [{"name": "x", "shape": "allAB", "bad": False}, {"name": "y", "shape": "shared", "bad": False}]
+    regions = {"cc_includes": ["vp_body_A.h", "vp_body_B.h", "vp_shared.h"]}
+    good = [{"blocks": blocks, "backend": "cms_aod", "outcome": "ok", "regions": regions}]
+    _expect_clean("genuine record (two blocks, CMS body includes)", _tlc_verdicts("InjectTrace", "InjectTrace.cfg", good), results)
+    bad = copy.deepcopy(good)
+    bad[0]["regions"]["cc_includes"] = ["vp_body_A.h", "vp_body_B.h"]
+    _expect("an injected include missing from its region", _tlc_verdicts("InjectTrace", "InjectTrace.cfg", bad), "SlotsExact:cc_includes", results)
+    bad = copy.deepcopy(good)
+    bad[0]["regions"]["cc_includes"] = ["vp_body_B.h", "vp_body_A.h", "vp_shared.h"]
+    _expect("two injected lines swapped", _tlc_verdicts("InjectTrace", "InjectTrace.cfg", bad), "SlotsExact:cc_includes", results)
+    bad = copy.deepcopy(good)
+    bad[0]["outcome"] = "ValueError"
+    _expect("error reported for an acceptable list", _tlc_verdicts("InjectTrace", "InjectTrace.cfg", bad), "BlockOutcome", results)
+
+
+def localrun_trace(results):
+    print("LocalRunTrace")
+    sc = {"backend": "cms_aod", "files": "two_same_dir", "md": "absent", "outdir": "given", "translation": "ok",
+          "container": "ok_result", "prior": "none"}
+    call = {"image": "vp/dataset-image:tag1", "command": ["/scripts/runner.sh"],
+            "mounts": [{"host": "/t/pkg", "point": "/scripts", "mode": "rw"}, {"host": "/t/pkg", "point": "/results", "mode": "rw"},
+                       {"host": "/d", "point": "/data", "mode": "ro"}],
+            "remove": True, "stream": True, "filelist": ["/data/f1.root", "/data/f2.root"], "data_dir_is_files_dir": True}
+    good = [{"sc": sc, "raised": False, "exc": "", "calls": [call], "returned": True, "returned_in_outdir": True,
+             "result_is_containers": True, "tmp_left": [], "pkg_dir_is_tmp": True}]
+    _expect_clean("genuine record", _tlc_verdicts("LocalRunTrace", "LocalRunTrace.cfg", good), results)
+    for name, clause, f in [
+            ("another image", "RightImage", lambda r: r["calls"][0].__setitem__("image", "vp/other:1")),
+            ("file list in another order", "FilelistExact", lambda r: r["calls"][0].__setitem__("filelist", ["/data/f2.root", "/data/f1.root"])),
+            ("data mounted writable", "RightVolumes", lambda r: r["calls"][0]["mounts"][2].__setitem__("mode", "rw")),
+            ("another command", "RightCommand", lambda r: r["calls"][0].__setitem__("command", ["/scripts/other.sh"])),
+            ("temporary directory left behind", "TempRemoved", lambda r: r.__setitem__("tmp_left", ["x"])),
+            ("an error raised where none is due", "ErrorPropagates", lambda r: r.__setitem__("raised", True)),
+            ("two containers started", "OneContainer", lambda r: r["calls"].append(copy.deepcopy(r["calls"][0])))]:
+        bad = copy.deepcopy(good)
+        f(bad[0])
+        _expect(name, _tlc_verdicts("LocalRunTrace", "LocalRunTrace.cfg", bad), clause, results)
+
+
+def variant_trace(results):
+    print("VariantTrace")
+
+    def T(k, a="", b="", n=0, d=1, ch=()):
+        return {"k": k, "a": a, "b": b, "n": n, "d": d, "ch": list(ch)}
+    jets = T("Coll", "A", "bk1", ch=[T("Var", "e")])
+    q = T("Select", "e", ch=[T("DS"), T("Select", "j", ch=[jets, T("Meth", "pt", ch=[T("Var", "j")])])])
+    q2 = T("Select", "e", ch=[T("DS"), T("Select", "x", ch=[jets, T("Meth", "pt", ch=[T("Var", "x")])])])
+    import pipeline
+    events, _ = pipeline.generate_events(3, seed=3)
+    good = {"events": events, "cases": [{"id": 1, "backend": "atlas", "q": q, "digest": "aa",
+                                         "variants": [{"how": "rename", "q": q2, "digest": "aa"}]}]}
+    _expect_clean("genuine record (a renaming, equal digests)", _tlc_verdicts("VariantTrace", "VariantTrace.cfg", good), results)
+    bad = copy.deepcopy(good)
+    bad["cases"][0]["variants"][0]["digest"] = "ab"
+    _expect("variant package differs", _tlc_verdicts("VariantTrace", "VariantTrace.cfg", bad), "SameUpToNames", results)
+
+
 def main():
     results = []
     job_trace(results)
     meta_trace(results)
     lifecycle_trace(results)
     runner_trace(results)
+    inject_trace(results)
+    localrun_trace(results)
+    variant_trace(results)
     bad = [r for r in results if not r[2]]
     print("selftest: %d checks, %d failed" % (len(results), len(bad)))
     return 1 if bad else 0
